@@ -1008,8 +1008,11 @@ type TernNode struct {
 
 func (n *TernNode) String() string {
 	// (the spaces keep "$a ? [1] : 2" from reading back as the null-safe "$a?[1]")
-	var elseStr = n.Arg3.String()
-	if _, ok := n.Arg3.(*TernNode); !ok {
+	// (each operand is printed once: printing one twice doubles the work at every level of nesting)
+	var elseStr string
+	if _, ok := n.Arg3.(*TernNode); ok {
+		elseStr = n.Arg3.String()
+	} else {
 		elseStr = operandString(n.Arg3, 0, false)
 	}
 	return operandString(n.Arg1, 0, false) + " ? " + operandString(n.Arg2, 0, false) + " : " + elseStr
